@@ -267,7 +267,10 @@ func c11Oracle(w *World, s *Setup) *Violation {
 								return v
 							}
 						}
-					} else if conflicts < 4 && sy.EndStep != 0 {
+					} else if attempts409(seq) < 2 && sy.EndStep != 0 {
+						// (how many attempts client-go makes before it gives up is its business; an
+						// injected 409 on the fresh read uses one up, too. What the statement asks
+						// is that a conflict is retried at all.)
 						if v := report(&Violation{Prop: "C11", Class: "conflict-not-retried", Sig: s.Sig, Step: q.Step,
 							Detail: fmt.Sprintf("%s: the status write got a 409 (%d so far) and was not retried", where, conflicts)}); v != nil {
 							return v
@@ -298,4 +301,15 @@ func c11Oracle(w *World, s *Setup) *Violation {
 		_ = strings.Join
 	}
 	return nil
+}
+
+// attempts409 counts the requests of a status-update sequence that were answered 409.
+func attempts409(seq []*ReqRec) int {
+	n := 0
+	for _, q := range seq {
+		if q.Code == 409 {
+			n++
+		}
+	}
+	return n
 }
